@@ -28,6 +28,7 @@ func init() {
 			{ID: "C03.5", Desc: "default ports", Run: ruleC03_5, MinSites: 2},
 			{ID: "C03.6", Desc: "upper-case hex alphabet", Run: ruleC03_6, MinSites: 1},
 			{ID: "C03.7", Desc: "an IP-literal host keeps (or regains) its brackets before ':port' is appended", Run: func(c *Ctx) { ruleC03_7(c); ruleC03_7b(c) }, MinSites: 1},
+			{ID: "C03.8", Desc: "the id under which a response is filed survives the JSON index (an id changed by the index names the entry of another URI)", Run: func(c *Ctx) { ruleIndexValuesUTF8Safe(c, "C03.8") }, MinSites: 1},
 		},
 	})
 }
@@ -574,7 +575,15 @@ func ruleC03_7(c *Ctx) {
 			rets = append(rets, r.Results[0])
 		}
 	})
+	// each returned key is judged on its own: a second way of building the key (opaque request targets) is not covered
+	// by the re-bracketing of the first
+	type perRet struct {
+		sources            []string
+		rebracket, colon bool
+	}
+	var verdicts []perRet
 	for _, rv := range rets {
+		sources, rebracket, colonJoin = nil, false, false
 		c.P.TraceBack(rv, TraceOpts{ThroughOps: true, ThroughExtern: true, NoHeapFields: true}, func(x ssa.Value, _ []int) bool {
 			switch y := x.(type) {
 			case *ssa.Call:
@@ -625,6 +634,18 @@ func ruleC03_7(c *Ctx) {
 			}
 			return true
 		})
+		verdicts = append(verdicts, perRet{sources, rebracket, colonJoin})
+	}
+	// the verdict of the worst return
+	sources, rebracket, colonJoin = nil, false, false
+	for _, v := range verdicts {
+		if v.colon && len(v.sources) > 0 && !v.rebracket {
+			sources, rebracket, colonJoin = v.sources, false, true
+			break
+		}
+		sources = append(sources, v.sources...)
+		rebracket = rebracket || v.rebracket
+		colonJoin = colonJoin || v.colon
 	}
 	sort.Strings(sources)
 	sources = uniqStrings(sources)
